@@ -32,6 +32,8 @@ static inline x86::Assembler* make_asm(bool x64, bool validate) {
   memset(buf, 0xCC, sizeof(buf));
   reports = 0; last_reported = Error::kOk;
   a->_code = c; a->_section = s;
+  a->_emitter_type = EmitterType::kAssembler;
+  c->_attached_first = a; c->_attached_last = a;   // as CodeHolder::attach() links the emitter
   a->_environment.init(x64 ? Arch::kX64 : Arch::kX86);
   a->_arch_mask = (uint64_t(1) << uint32_t(Arch::kX86)) | (uint64_t(1) << uint32_t(Arch::kX64));  // as the constructor sets it
   a->_forced_inst_options = x64 ? InstOptions::kNone : InstOptions::kX86_InvalidRex;
